@@ -397,8 +397,13 @@ pub fn gen_project(r: &mut Rng, pf: &Profile) -> Project {
             soft: r.pct(30),
             exists: true,
             tag: String::new(),
-            mg: r.pct(40),
+            mg: false,
         });
+        // a missing soft include is always reported (-MG style): otherwise the command's
+        // result would depend on the existence of a file n2 was never told about, which no
+        // depfile-based build system can notice when the file appears later
+        let l = srcs.len() - 1;
+        srcs[l].mg = srcs[l].soft;
     }
     for i in 0..nsrc {
         for j in i + 1..nsrc {
